@@ -248,8 +248,49 @@ func factShutdownFlagUnderLock() int {
 	return 0
 }
 
+// Exchange: the retransmission ticker is created with the configured interval itself - `time.NewTicker(c.Retry)`.
+// 1: literally so; 0: the argument is another expression that mentions Retry (2*c.Retry, c.Retry+x, f(c.Retry));
+// 2: anything the extractor cannot judge (no such call, the interval passed through a local or a helper).
+// (Behaviourally only the UPPER bounds on the resend frequency are asserted - the timed theorems, and the
+// harness's loose count class below it: a ticker that is merely slower would pass them.)
+func factTickerPeriodIsRetry() int {
+	_, f := parseRepoFile("client.go")
+	if f == nil {
+		return 2
+	}
+	res := 2
+	ast.Inspect(f, func(n ast.Node) bool {
+		c, ok := n.(*ast.CallExpr)
+		if !ok || exprName(c.Fun) != "time.NewTicker" || len(c.Args) != 1 {
+			return true
+		}
+		if sel, ok := c.Args[0].(*ast.SelectorExpr); ok && sel.Sel.Name == "Retry" {
+			if res == 2 {
+				res = 1
+			}
+			return true
+		}
+		if _, ok := c.Args[0].(*ast.Ident); ok {
+			return true // a local: unknown
+		}
+		mentions := false
+		ast.Inspect(c.Args[0], func(m ast.Node) bool {
+			if sel, ok := m.(*ast.SelectorExpr); ok && sel.Sel.Name == "Retry" {
+				mentions = true
+			}
+			return true
+		})
+		if mentions {
+			res = 0
+		}
+		return true
+	})
+	return res
+}
+
 func init() {
 	factProbes = append(factProbes, func(f *factSet) {
+		f.nat("tickerPeriodIsRetry", factTickerPeriodIsRetry())
 		f.nat("shutdownFlagUnderLock", factShutdownFlagUnderLock())
 		f.nat("newUsesCryptoRand", factNewUsesCryptoRand())
 		f.nat("countedUnderLock", factCountedUnderLock())
